@@ -90,6 +90,11 @@ def run_all(ctx, focus):
         validate(ctx, t, "faults")
         ctx.exhaustive = thorough
     if focus == "hits":
+        # item files renamed while the cache was closed (names claiming other ranges / another key, same length and crc)
+        t = os.path.join(w, "renames.ndjson")
+        summaries["renames"] = vlib.xv("chunkcache", mode="renames", seed=ctx.seed, keys=2, nch=3, capx=4, out=t)
+        validate(ctx, t, "renames")
+    if focus == "hits":
         # damaged item read by 8 threads at the same moment (large chunks: the checksum pass takes milliseconds)
         t = os.path.join(w, "dstorm.ndjson")
         summaries["dstorm"] = vlib.xv("chunkcache", mode="dstorm", n=12 * k, threads=8, seed=ctx.seed, keys=1, nch=4,
